@@ -172,8 +172,8 @@ let () =
         | ["reopen"] -> do_op OReopen noenv
         | ["dump"; c; ids] -> do_op (ODump (n_of_string c, ids_of_string ids)) noenv
         | "mark" :: _ -> print_endline "mark"
-        | ["allow"; "none"] -> st.allow <- None
-        | ["allow"; l] -> st.allow <- Some (ids_of_string l)
+        | ["allow"; "none"] -> st.allow <- None; print_endline "allowed"
+        | ["allow"; l] -> st.allow <- Some (ids_of_string l); print_endline "allowed"
         | ["http"; m; route; sg; cid; ct; chunks; fresh; now] ->
           let meth = (match m with "get" -> MGet | "post" -> MPost | _ -> MOther) in
           let path = (match route with
